@@ -752,6 +752,8 @@ class Container:
         if not isinstance(quantity, str):
             raise TypeError("Quantity must be a str.")
 
+        if round(Unit.parse_quantity(quantity)[0], config.internal_precision) < 0:
+            raise ValueError("Quantity must be non-negative.")
         volume_to_add = Unit.convert(source, quantity, config.volume_storage_unit)
         if source.is_enzyme():
             amount_to_add = Unit.convert(source, quantity, 'U')
@@ -776,6 +778,8 @@ class Container:
         if not isinstance(source_container, Container):
             raise TypeError("Invalid source type.")
         quantity_to_transfer, unit = Unit.parse_quantity(quantity)
+        if quantity_to_transfer < 0:
+            raise ValueError("Quantity must be non-negative.")
 
         if unit == 'L':
             volume_to_transfer = Unit.convert_to_storage(quantity_to_transfer, 'L')
